@@ -12,7 +12,24 @@ import (
 	"strings"
 )
 
+// a read at.S(arr, off, bv+shift) inside a quantified fact
+type qread struct {
+	sort  *Sort
+	keys  []string
+	off   *Term
+	shift *Term
+}
+
+// an element read made by the program or a goal: backing object keys, slice offset and index
+type absRead struct {
+	sort *Sort
+	keys []string
+	off  *Term
+	idx  *Term
+}
+
 type qfact struct {
+	reads []qread
 	bv    *Term
 	body  *Term // lo <= bv < hi => B(bv)
 	guard *Term
@@ -171,6 +188,13 @@ func (x *Exec) registerFacts(st *State, t *Term, guard *Term, depth int) {
 		}
 	case "=>":
 		x.registerFacts(st, t.args[1], And(guard, t.args[0]), depth+1)
+	case "or":
+		// an existential disjunct may be named by a witness whatever the other disjuncts say (exists k. P => P(w))
+		for _, a := range t.args {
+			if a.op == "exists" {
+				x.registerFacts(st, a, guard, depth+1)
+			}
+		}
 	case "forall":
 		bv, body, ok := isBoundedForall(t)
 		if !ok || hasFreeBound(t) {
@@ -181,13 +205,29 @@ func (x *Exec) registerFacts(st *State, t *Term, guard *Term, depth int) {
 			return
 		}
 		x.qseen[key] = true
-		f := &qfact{bv: bv, body: body, guard: guard, sorts: indexSorts(body, bv)}
+		f := &qfact{bv: bv, body: body, guard: guard, sorts: indexSorts(body, bv), reads: factReads(body, bv)}
 		x.qfacts = append(x.qfacts, f)
 		if os.Getenv("GOVC_DEBUG") != "" {
 			fmt.Fprintf(os.Stderr, "DEBUG register fact#%d sorts=%v body=%s\n", body.id, f.sorts, truncate(body.String(), 300))
 		}
 		for _, e := range x.interest {
 			x.instantiate(st, f, e, depth)
+		}
+		for _, a := range x.absReads {
+			x.instantiateAbs(st, f, a, depth)
+		}
+	case "=":
+		// b == forall(...) : both directions are hypotheses
+		if len(t.args) == 2 && t.args[0].sort == SBool && depth <= 4 {
+			for i := 0; i < 2; i++ {
+				q, b := t.args[i], t.args[1-i]
+				if bv, body, ok := isBoundedForall(q); ok && !hasFreeBound(t) && !containsQuant(b) {
+					x.registerFacts(st, q, And(guard, b), depth+1)
+					ex := Exists([]*Term{bv}, Not(body))
+					x.ctx.facts = append(x.ctx.facts, Implies(And(guard, t, Not(b)), ex))
+					x.registerFacts(st, ex, And(guard, Not(b)), depth+1)
+				}
+			}
 		}
 	case "exists":
 		// a positive existential hypothesis: name a witness
@@ -211,15 +251,54 @@ func (x *Exec) registerFacts(st *State, t *Term, guard *Term, depth int) {
 				x.addInterest(st, k, s)
 			}
 		}
+		x.interestFromGoal(st, inst)
 	}
 }
 
 func (x *Exec) instantiate(st *State, f *qfact, e *Term, depth int) {
+	x.instantiateF(st, f, e, depth, false)
+}
+
+// instantiateAbs: the read a (array object, offset, index) and a read of the fact on the same object with another
+// offset denote the same element when bv = a.off + a.idx - off - shift: instantiate there (slices of slices,
+// substrings of strings).
+func (x *Exec) instantiateAbs(st *State, f *qfact, a absRead, depth int) {
+	for _, r := range f.reads {
+		if r.off == a.off && r.shift == nil {
+			continue // same offset: the plain index is the instance (handled by the interest terms)
+		}
+		match := false
+		for _, k := range r.keys {
+			for _, k2 := range a.keys {
+				// strings (arrays that are not heap objects) may be equal without being the same term:
+				// a line's text is a piece of the parsed text by a `same(...)` postcondition
+				if k == k2 || (strings.HasPrefix(k, "arr:") && strings.HasPrefix(k2, "arr:") && r.sort == a.sort) {
+					match = true
+				}
+			}
+		}
+		if !match {
+			continue
+		}
+		e := Add(a.off, a.idx)
+		e = Sub(e, r.off)
+		if r.shift != nil {
+			e = Sub(e, r.shift)
+		}
+		e = linNorm(e)
+		if hasFreeBound(e) {
+			continue
+		}
+		x.instantiateF(st, f, e, depth, true)
+	}
+}
+
+func (x *Exec) instantiateF(st *State, f *qfact, e *Term, depth int, force bool) {
 	if x.ninst >= maxInstances || e.sort != f.bv.sort || f.n >= maxPerFact {
 		return
 	}
 	// relevance: the term must have been used as an index into an array of a sort the fact talks about
-	if !f.sorts["*"] {
+	if !f.sorts["*"] && !force {
 		rel := false
 		for s := range x.interestSorts[e.id] {
 			if f.sorts[s] || s == "*" {
@@ -384,10 +463,95 @@ func (x *Exec) skolemize(st *State, g *Term, depth int) *Term {
 			as = append(as, x.skolemize(st, a, depth+1))
 		}
 		return And(as...)
+	case "or":
+		var as []*Term
+		for _, a := range g.args {
+			as = append(as, x.skolemize(st, a, depth+1))
+		}
+		return Or(as...)
 	case "=>":
 		// hypotheses of the goal are available as facts for instantiation
 		x.registerFacts(st, g.args[0], st.pc, depth+1)
 		return Implies(g.args[0], x.skolemize(st, g.args[1], depth+1))
+	case "exists":
+		// an existential goal: offer the solver instances at the candidate witnesses (G or body[e] is equivalent
+		// to G, each instance implies G): the bounds of the range, and the terms of interest for the arrays indexed
+		if splitVal(g.val) != "1" || g.args[0].sort != SInt || hasFreeBound(g) || depth > 3 {
+			return g
+		}
+		bv, body := g.args[0], g.args[1]
+		var cands []*Term
+		seen := map[int]bool{}
+		addC := func(e *Term) {
+			if e != nil && !seen[e.id] && !hasFreeBound(e) && len(cands) < 12 {
+				seen[e.id] = true
+				cands = append(cands, e)
+			}
+		}
+		for _, c := range conjList(body) {
+			// lo <= bv , bv < hi
+			if c.op == "<=" && c.args[1] == bv {
+				addC(c.args[0])
+			}
+			if c.op == "<" && c.args[0] == bv {
+				addC(Sub(c.args[1], IntLit(1)))
+			}
+		}
+		// reads of the same object through another offset (a witness inside a substring)
+		reads := factReads(body, bv)
+		// witnesses of existential hypotheses first: they are what an existential conclusion is usually built from
+		for pass := 0; pass < 2; pass++ {
+			for i := len(x.absReads) - 1; i >= 0 && len(cands) < 8; i-- {
+				a := x.absReads[i]
+				if isW := mentionsWitness(a.idx); (pass == 0) != isW {
+					continue
+				}
+				for _, r := range reads {
+					match := false
+					for _, k := range r.keys {
+						for _, k2 := range a.keys {
+							if k == k2 || (strings.HasPrefix(k, "arr:") && strings.HasPrefix(k2, "arr:") && r.sort == a.sort) {
+								match = true
+							}
+						}
+					}
+					if !match || (r.off == a.off && r.shift == nil && pass == 1) {
+						continue
+					}
+					e := Sub(Add(a.off, a.idx), r.off)
+					if r.shift != nil {
+						e = Sub(e, r.shift)
+					}
+					addC(linNorm(e))
+				}
+			}
+		}
+		srt := indexSorts(body, bv)
+		for i := len(x.interest) - 1; i >= 0; i-- {
+			e := x.interest[i]
+			for sk := range x.interestSorts[e.id] {
+				if srt[sk] && !strings.HasPrefix(sk, "sort:") {
+					addC(e)
+				}
+			}
+			for sk := range x.idxElemSort[e.id] {
+				if srt[sk] {
+					addC(e)
+				}
+			}
+		}
+		alts := []*Term{g}
+		if os.Getenv("GOVC_DEBUG") != "" {
+			for _, e := range cands {
+				fmt.Fprintf(os.Stderr, "DEBUG exists-goal candidate %s\n", truncate(e.String(), 200))
+			}
+		}
+		for _, e := range cands {
+			inst := substTerm(body, map[int]*Term{bv.id: e})
+			x.linkAtTerms(inst)
+			alts = append(alts, inst)
+		}
+		return Or(alts...)
 	case "forall":
 		bv, body, ok := isBoundedForall(g)
 		if !ok || hasFreeBound(g) {
@@ -448,15 +612,201 @@ func (x *Exec) interestFromGoal(st *State, g *Term) {
 		}
 		seen[t.id] = true
 		if len(t.op) > 3 && t.op[:3] == "at." && len(t.args) == 3 && !hasFreeBound(t) {
-			if _, isLit := t.args[2].intVal(); !isLit || true {
-				for _, k := range arrKeys(t.args[0]) {
-					x.addInterest(st, t.args[2], k)
-				}
-			}
+			x.addReadInterest(st, t.args[0], t.args[1], t.args[2])
 		}
 		for _, a := range t.args {
 			walk(a)
 		}
 	}
 	walk(g)
+}
+
+// factReads lists the reads at.S(arr, off, bv [+ shift]) of a quantified body.
+func factReads(body, bv *Term) []qread {
+	var out []qread
+	seen := map[int]bool{}
+	var walk func(t *Term)
+	walk = func(t *Term) {
+		if seen[t.id] {
+			return
+		}
+		seen[t.id] = true
+		if len(t.op) > 3 && t.op[:3] == "at." && len(t.args) == 3 && len(out) < 8 {
+			idx := t.args[2]
+			var shift *Term
+			ok := idx == bv
+			if !ok && idx.op == "+" && len(idx.args) == 2 {
+				if idx.args[0] == bv && !mentionsTerm(idx.args[1], bv) {
+					ok, shift = true, idx.args[1]
+				} else if idx.args[1] == bv && !mentionsTerm(idx.args[0], bv) {
+					ok, shift = true, idx.args[0]
+				}
+			}
+			if ok && !mentionsTerm(t.args[1], bv) && !mentionsTerm(t.args[0], bv) {
+				out = append(out, qread{sort: t.args[0].sort, keys: arrKeys(t.args[0]), off: t.args[1], shift: shift})
+			}
+		}
+		for _, a := range t.args {
+			walk(a)
+		}
+	}
+	walk(body)
+	return out
+}
+
+func mentionsTerm(t, v *Term) bool {
+	seen := map[int]bool{}
+	var walk func(t *Term) bool
+	walk = func(t *Term) bool {
+		if t == v {
+			return true
+		}
+		if seen[t.id] {
+			return false
+		}
+		seen[t.id] = true
+		for _, a := range t.args {
+			if walk(a) {
+				return true
+			}
+		}
+		return false
+	}
+	return walk(t)
+}
+
+// linNorm normalises an integer term built from + and - (and literal factors): like summands cancel.
+func linNorm(t *Term) *Term {
+	type ent struct {
+		t *Term
+		c int64
+	}
+	var order []int
+	coef := map[int]*ent{}
+	var konst int64
+	var walk func(t *Term, c int64)
+	walk = func(t *Term, c int64) {
+		if v, ok := t.intVal(); ok {
+			konst += c * v
+			return
+		}
+		switch {
+		case t.op == "+":
+			for _, a := range t.args {
+				walk(a, c)
+			}
+			return
+		case t.op == "-" && len(t.args) == 2:
+			walk(t.args[0], c)
+			walk(t.args[1], -c)
+			return
+		case t.op == "*" && len(t.args) == 2:
+			if v, ok := t.args[0].intVal(); ok {
+				walk(t.args[1], c*v)
+				return
+			}
+			if v, ok := t.args[1].intVal(); ok {
+				walk(t.args[0], c*v)
+				return
+			}
+		}
+		if e, ok := coef[t.id]; ok {
+			e.c += c
+		} else {
+			coef[t.id] = &ent{t, c}
+			order = append(order, t.id)
+		}
+	}
+	walk(t, 1)
+	var r *Term
+	add := func(u *Term) {
+		if r == nil {
+			r = u
+		} else {
+			r = Add(r, u)
+		}
+	}
+	for _, id := range order {
+		e := coef[id]
+		switch {
+		case e.c == 0:
+		case e.c == 1:
+			add(e.t)
+		case e.c > 1:
+			add(Mul(IntLit(e.c), e.t))
+		}
+	}
+	for _, id := range order {
+		e := coef[id]
+		if e.c < 0 {
+			u := e.t
+			if e.c != -1 {
+				u = Mul(IntLit(-e.c), e.t)
+			}
+			if r == nil {
+				r = Sub(IntLit(0), u)
+			} else {
+				r = Sub(r, u)
+			}
+		}
+	}
+	if r == nil {
+		return IntLit(konst)
+	}
+	if konst != 0 {
+		r = Add(r, IntLit(konst))
+	}
+	return r
+}
+
+// addReadInterest records an element read: the index is a term of interest for the facts about the same backing
+// object, and the absolute position (offset + index) for facts that read the object through another offset.
+func (x *Exec) addReadInterest(st *State, arr, off, idx *Term) {
+	if hasFreeBound(idx) || hasFreeBound(off) || hasFreeBound(arr) {
+		return
+	}
+	keys := arrKeys(arr)
+	for _, k := range keys {
+		x.addInterest(st, idx, k)
+	}
+	if x.idxElemSort == nil {
+		x.idxElemSort = map[int]map[string]bool{}
+	}
+	if x.idxElemSort[idx.id] == nil {
+		x.idxElemSort[idx.id] = map[string]bool{}
+	}
+	if _, v := arr.sort.arrayParts(); v != nil {
+		x.idxElemSort[idx.id]["sort:"+v.Name] = true
+	}
+	key := [2]int{Add(off, idx).id*31 + arr.id, -57}
+	if x.qseen[key] || len(x.absReads) > 400 {
+		return
+	}
+	x.qseen[key] = true
+	a := absRead{sort: arr.sort, keys: keys, off: off, idx: idx}
+	x.absReads = append(x.absReads, a)
+	for _, f := range x.qfacts {
+		x.instantiateAbs(st, f, a, 0)
+	}
+}
+
+func mentionsWitness(t *Term) bool {
+	seen := map[int]bool{}
+	var walk func(t *Term) bool
+	walk = func(t *Term) bool {
+		if seen[t.id] {
+			return false
+		}
+		seen[t.id] = true
+		if t.op == "sym" && strings.HasPrefix(t.val, "witness") {
+			return true
+		}
+		for _, a := range t.args {
+			if walk(a) {
+				return true
+			}
+		}
+		return false
+	}
+	return walk(t)
 }
